@@ -221,8 +221,10 @@ def message(draw, depth=3, max_avps=8):
     if avps and draw(st.booleans()):
         # force a second AVP of the same name
         avps.insert(draw(st.integers(0, len(avps))), draw(st.sampled_from(avps)))
+    from . import common
     return {"hdr": draw(header()), "avps": avps,
-            "how": draw(st.sampled_from(["ctor", "append", "extend", "setter", "mixed"]))}
+            "how": draw(st.sampled_from(["ctor", "append", "extend", "setter", "mixed"])),
+            "tz": draw(st.sampled_from([None, None, None] + common.TZS))}
 
 
 # ------------------------------------------------------------------ reference encoding
